@@ -174,6 +174,7 @@ func checkC01(c c01Case) *evid.Fail {
 	var wantErr error
 	wantPanic := guard(func() { wantV, wantErr = evalTree(c.Tree, makeVars(c.Vars), funcs, ops) })
 	results := make([]string, len(c.Texts))
+	var lastCalc *calculator.ExpressionCalculator
 	for i, text := range c.Texts {
 		calc := calculator.NewExpressionCalculator()
 		calc.SetVariantOperations(ops)
@@ -191,7 +192,10 @@ func checkC01(c c01Case) *evid.Fail {
 		}
 		var gotV *variants.Variant
 		var gotErr error
+		// another calculator compiles something else in between: instances do not share what they compiled
+		guard(func() { calculator.NewExpressionCalculator().SetExpression("1 + 2 * 3") })
 		gotPanic := guard(func() { gotV, gotErr = calc.EvaluateUsingVariablesAndFunctions(makeVars(c.Vars), funcs) })
+		lastCalc = calc
 		results[i] = resultRepr(gotV, gotErr)
 		if gotPanic != nil {
 			results[i] = "PANIC"
@@ -222,6 +226,33 @@ func checkC01(c c01Case) *evid.Fail {
 			}
 		}
 	}
+	// the same parsed instance under a second assignment (the values rotated among the names), then the first again
+	if wantPanic == nil && lastCalc != nil && len(c.Vars) > 1 {
+		vars2 := make([]binding, len(c.Vars))
+		for i := range c.Vars {
+			vars2[i] = binding{c.Vars[i].Name, c.Vars[(i+1)%len(c.Vars)].V}
+		}
+		var w2, g2, g1 string
+		p1 := guard(func() { v, e := evalTree(c.Tree, makeVars(vars2), funcs, ops); w2 = resultRepr(v, e) })
+		p2 := guard(func() {
+			v, e := lastCalc.EvaluateUsingVariablesAndFunctions(makeVars(vars2), funcs)
+			g2 = resultRepr(v, e)
+			v, e = lastCalc.EvaluateUsingVariablesAndFunctions(makeVars(c.Vars), funcs)
+			g1 = resultRepr(v, e)
+		})
+		text := c.Texts[len(c.Texts)-1]
+		if p1 == nil && p2 != nil {
+			p2.Msg = fmt.Sprintf("%q under a second assignment %v: %s", text, vars2, p2.Msg)
+			return p2
+		}
+		bothErr := func(a, b string) bool { return strings.HasPrefix(a, "error") && strings.HasPrefix(b, "error") }
+		if p1 == nil && g2 != w2 && !bothErr(g2, w2) {
+			return evid.F("value-mismatch:second-assignment", "%q parsed once: under the second assignment %v the calculator returns %s, the syntax tree evaluates to %s", text, vars2, g2, w2)
+		}
+		if p1 == nil && g1 != results[len(results)-1] && !bothErr(g1, results[len(results)-1]) {
+			return evid.F("value-mismatch:second-assignment", "%q parsed once: back under the first assignment the calculator returns %s, before %s", text, g1, results[len(results)-1])
+		}
+	}
 	// the other entry points: constructor from text, default variables + Evaluate(), token-list entry
 	allBound := true
 	var unbound func(n *node)
@@ -241,7 +272,7 @@ func checkC01(c c01Case) *evid.Fail {
 	}
 	unbound(c.Tree)
 	if wantPanic == nil && len(c.Texts) > 0 && allBound {
-		var r1, r2, r3 string
+		var r1, r2, r3, r4 string
 		if g := guard(func() {
 			c1, err := calculator.ExpressionCalculatorFromExpression(c.Texts[len(c.Texts)-1])
 			if err != nil {
@@ -266,14 +297,18 @@ func checkC01(c c01Case) *evid.Fail {
 			c3.SetVariantOperations(ops)
 			v, e = c3.EvaluateUsingVariablesAndFunctions(makeVars(c.Vars), funcs)
 			r3 = resultRepr(v, e)
+			c3.DefaultFunctions().Add(tupFunction("Tup"))
+			c3.DefaultFunctions().Add(tupFunction("a"))
+			v, e = c3.EvaluateUsingVariables(makeVars(c.Vars))
+			r4 = resultRepr(v, e)
 		}); g != nil {
 			g.Msg = fmt.Sprintf("alternative entry points for %q: %s", c.Texts[len(c.Texts)-1], g.Msg)
 			return g
 		}
 		ref := results[len(results)-1]
-		for i, r := range []string{r1, r2, r3} {
+		for i, r := range []string{r1, r2, r3, r4} {
 			if r != ref && !(strings.HasPrefix(r, "error") && strings.HasPrefix(ref, "error")) && ref != "PANIC" {
-				return evid.F("entry-points-differ", "%q: SetExpression+EvaluateUsingVariablesAndFunctions gives %s, entry point #%d (FromExpression+Evaluate / EvaluateUsingVariables(nil) / FromTokens) gives %s", c.Texts[len(c.Texts)-1], ref, i+1, r)
+				return evid.F("entry-points-differ", "%q: SetExpression+EvaluateUsingVariablesAndFunctions gives %s, entry point #%d (FromExpression+Evaluate / EvaluateUsingVariables(nil) / FromTokens / EvaluateUsingVariables(vars)) gives %s", c.Texts[len(c.Texts)-1], ref, i+1, r)
 			}
 		}
 	}
